@@ -11,7 +11,7 @@
    Modelled code (as it exists in /repo, defects included):
    1. Go slice and index expressions s[lo:], s[:hi], s[lo:hi], s[i], s[i] = x        (spec of the
       language: 0 <= lo <= hi <= len; spare capacity is never relied on by the modelled sites);
-      pkg/storage/memory/memory.go  read (ReadPage)          matches[from:], matches[:to]
+      pkg/storage/memory/memory.go  read (ReadPage)          from < 0 rejected, matches[min(from,len):], matches[:to]
                                     ReadAuthorizationModels   models[from:to]   (clamped)
                                     ListStores                stores[from:to]   (clamped)
                                     ReadChanges               allChanges[:to]
@@ -92,18 +92,23 @@ Definition copy_into {A} (dst src : list A) : list A * Z :=
 (* ------------------------------------------------------------------------------------------ *)
 (* 1b. the paging slices of the memory backend, as coded *)
 
-(* memory.go read():
-     if from <= len(matches) { matches = matches[from:] }
+(* memory.go read(), after the repair of finding F5 (commit 3cab6a7):
+     if from < 0 { return nil, storage.ErrInvalidContinuationToken }
+     from = min(from, len(matches)); matches = matches[from:]
      to := options.Pagination.PageSize      (0 = everything)
      if to != 0 && to < len(matches) { return matches[:to], strconv.Itoa(from + to) }
      return matches, ""
    [from], [to] are Go ints (the token offset after strconv.Atoi, the page size).
-   Result: the page and the next offset (None = no continuation token). *)
-Definition page_slice {A} (matches : list A) (from to : Z) : go (list A * option Z) :=
-  bind (if (from <=? zlen matches)%Z then slice_from matches from else Ok matches) (fun m =>
-  if (negb (to =? 0) && (to <? zlen m))%Z
-  then bind (slice_to m to) (fun p => Ok (p, Some (Paging.wrap64 (from + to))))
-  else Ok (m, None)).
+   Result: None = ErrInvalidContinuationToken; otherwise the page and the next offset (None = no
+   continuation token).  A negative page size is still not guarded at this level. *)
+Definition page_slice {A} (matches : list A) (from to : Z) : go (option (list A * option Z)) :=
+  if (from <? 0)%Z then Ok None
+  else
+    let from' := Z.min from (zlen matches) in
+    bind (slice_from matches from') (fun m =>
+    if (negb (to =? 0) && (to <? zlen m))%Z
+    then bind (slice_to m to) (fun p => Ok (Some (p, Some (Paging.wrap64 (from' + to)))))
+    else Ok (Some (m, None))).
 
 (* memory.go ReadAuthorizationModels / ListStores:
      pageSize := DefaultPageSize; if options.PageSize > 0 { pageSize = options.PageSize }
@@ -121,12 +126,13 @@ Definition changes_slice {A} (all : list A) (ps : Z) : go (list A) :=
   let to := if (zlen all <? page_size)%Z then zlen all else page_size in
   slice_to all to.
 
-(* storage level: ReadPage(store, filter, {PageSize, From}).  None = strconv.Atoi error *)
+(* storage level: ReadPage(store, filter, {PageSize, From}).  None = strconv.Atoi error or
+   ErrInvalidContinuationToken *)
 Definition read_page_mem {A} (matches : list A) (page_size : Z) (from : bytes)
   : go (option (list A * option Z)) :=
   match Paging.parse_from from with
   | None => Ok None
-  | Some z => bind (page_slice matches z page_size) (fun r => Ok (Some r))
+  | Some z => page_slice matches z page_size
   end.
 
 (* command level (ReadQuery.Execute): [tok] is the continuation token after base64 decoding,
@@ -144,8 +150,8 @@ Definition read_request_mem {A} (matches : list A) (req_ps : Z) (tok : bytes)
   | Some f => read_page_mem matches ps f
   end.
 
-(* the trigger of finding F5b, computed from the decoded token: its offset part parses to a
-   negative integer *)
+(* the tokens finding F5b was about: the offset part parses to a negative integer (they are
+   rejected now) *)
 Definition negative_offset_token (tok : bytes) : bool :=
   match tok with
   | [] => false
@@ -153,16 +159,6 @@ Definition negative_offset_token (tok : bytes) : bool :=
          | Some (u, _) => match Paging.parse_from u with Some z => (z <? 0)%Z | None => false end
          | None => false
          end
-  end.
-
-(* the same outcome in the vocabulary of the C14 model *)
-Definition to_paging {A} (r : go (option (list A * option Z))) : Paging.outcome A :=
-  match r with
-  | Ok None => Paging.Rejected Paging.EInternal
-  | Ok (Some (items, None)) => Paging.Page items []
-  | Ok (Some (items, Some z)) => Paging.Page items (Paging.itoa z)
-  | Panic => Paging.Panic
-  | OutOfFuel => Paging.Rejected Paging.EInternal
   end.
 
 (* ------------------------------------------------------------------------------------------ *)
